@@ -1092,7 +1092,7 @@ def _make_rule_tuple(modifiers_tree, name, params, priority_tree, expansions):
         params = [t.value for t in params.children]  # For the grammar parser
 
     return name, params, expansions, RuleOptions(keep_all_tokens, expand1, priority=priority,
-                                                 template_source=(name if params else None))
+                                                 template_source=(str(name) if params else None))
 
 
 class Definition:
